@@ -20,7 +20,7 @@ RULE = ('generated multi-namespace specs (cross-namespace fields, parents, enume
         'retained field / parent / subtype list / alias target / route signature names a removed type, '
         'and python_types output of the filtered API imports in a fresh interpreter for every first-import '
         'choice. non-trivial = whitelist strictly between empty and everything with a dependency edge '
-        'crossing a namespace; distinct by (spec, whitelist).')
+        'crossing a namespace; distinct by (spec, whitelist). Spec files are handed to the compiler in a drawn order; one spec in three carries the same type names and the same doc text in two namespaces.')
 ASSUMPTIONS = ['Only whitelists naming existing namespaces, routes and types are generated.']
 DOC_REF = re.compile(r':(?P<tag>[A-z]+):`(?P<val>.*?)`')
 
